@@ -46,6 +46,8 @@ func genC04(seed int64, tier string, emit func(run.Case)) {
 	lang := gen.ProfileLang
 	lang.KwCase = .25
 	lang.Boards = .35
+	lang.HostileLabels = .15
+	core.HostileLabels = .15
 	for i := 0; i < n; i++ {
 		q := r.Sub(i)
 		switch q.Intn(3) {
